@@ -132,7 +132,6 @@ type c07Obs struct {
 	cur      uint64
 	snaps    []uint64
 	userDeps []uint64
-	hasSnap  bool
 }
 
 func (e *c07Env) observe(ctx sdk.Context) c07Obs {
@@ -174,7 +173,6 @@ func (e *c07Env) observe(ctx sdk.Context) c07Obs {
 		for _, c := range s.Chains {
 			if c == c07Chain {
 				o.snapCnt[id]++
-				o.hasSnap = true
 			}
 		}
 	}
@@ -229,9 +227,32 @@ func (e *c07Env) isProcessed(ctx sdk.Context, h common.Hash) bool {
 	return st.Has(h.Bytes())
 }
 
-// chainLine emits the model's view of the keeper state the action attesters read.
+// liveStr lists the snapshot ids whose Chains field names the chain, sorted, one entry per listing
+// (SetSnapshotOnChain appends and never de-duplicates).
+func (o c07Obs) liveStr() string {
+	var xs []uint64
+	for id, n := range o.snapCnt {
+		for k := 0; k < n; k++ {
+			xs = append(xs, id)
+		}
+	}
+	return u64List(sortedU64(xs))
+}
+
+// uactStr lists the user contracts whose deployment on the chain has status ACTIVE, sorted.
+func (o c07Obs) uactStr() string {
+	var xs []uint64
+	for id, a := range o.userAct {
+		if a {
+			xs = append(xs, id)
+		}
+	}
+	return u64List(sortedU64(xs))
+}
+
+// chainLine emits the model's view of the keeper state the action attesters read and write.
 func (e *c07Env) chainLine(o c07Obs) {
-	e.op(fmt.Sprintf("chain %s %d %s %s %d %s 1", o.depsStr(), o.active, c07B(o.hasSnap), u64List(o.snaps), o.cur, u64List(sortedU64(o.userDeps))), "ok")
+	e.op(fmt.Sprintf("chain %s %d %s %s %d %s 1 %s", o.depsStr(), o.active, o.liveStr(), u64List(o.snaps), o.cur, u64List(sortedU64(o.userDeps)), o.uactStr()), "ok")
 }
 
 func c07B(b bool) string {
@@ -813,6 +834,10 @@ type c07Force struct {
 	resubmit bool   // re-submit the transaction for a second, identical message ...
 	resubEnc int    // ... in this serialization
 	logShape int    // usc: shape of the receipt's log list (c07LogShapes)
+	// uv: a second message with identical content is queued and the transaction built for the FIRST
+	// one is presented, unused, as proof of delivery of the second (the compass method update_valset
+	// takes no message id, so the call data cannot tell the twins apart)
+	twinFirst bool
 }
 
 func (f *c07Force) txClass() string {
@@ -1208,7 +1233,7 @@ func (e *c07Env) attest(ctx sdk.Context, id uint64, evs []c07Ev, kind string) (c
 	if len(fx) > 0 {
 		fxs = strings.Join(fx, ",")
 	}
-	e.op(line, fmt.Sprintf("%s q=%s proc=%s fx=%s active=%d deps=%s snap=%s", class, u64List(q), proc, fxs, after.active, after.depsStr(), c07B(after.hasSnap)))
+	e.op(line, fmt.Sprintf("%s q=%s proc=%s fx=%s active=%d deps=%s live=%s uact=%s", class, u64List(q), proc, fxs, after.active, after.depsStr(), after.liveStr(), after.uactStr()))
 
 	// ----- monitors: the property evaluated on the implementation alone -----
 	removed := true
@@ -1448,7 +1473,9 @@ func (e *c07Env) runCase(name, kind string, f *c07Force) {
 //   - single use of a remote transaction across its serializations: an update-valset (and a logic
 //     call) is attested with a transaction of every class, reported in every serialization, and the
 //     SAME transaction is then re-submitted, in the same and in every other serialization, for a
-//     second message with identical content.
+//     second message with identical content;
+//   - interchangeable messages: two update-valsets with identical content, the transaction built for
+//     the first is presented (unused) for the second.
 //
 // Every case runs through the same driveMessage/attest path as the random ones, so the same
 // monitors and the same model comparison decide it.
@@ -1481,6 +1508,8 @@ func c07Directed(t *testing.T, r *Rec) {
 	for shape := 0; shape < c07LogShapes; shape++ {
 		run("usc", &c07Force{logShape: shape})
 	}
+	// twin update-valsets: the transaction built for the first attests the second
+	run("uv", &c07Force{existing: true, class: "dyn", twinFirst: true})
 	r.Stat(fmt.Sprintf("directed-cases:%d", n))
 }
 
@@ -1564,6 +1593,26 @@ func (e *c07Env) driveMessage(ctx sdk.Context, id uint64, kind string, caseKey *
 	tx := e.buildTx(s, f)
 	r.Stat("tx:" + strings.SplitN(tx.what, ":", 2)[0])
 	r.Stat(fmt.Sprintf("receipt:%d", tx.status))
+
+	if f != nil && f.twinFirst && kind == "uv" {
+		// interchangeable messages: the transaction built for message id is presented, unused, for
+		// its twin id2 (run through the same attest path: same monitors, same model comparison)
+		id2, err := e.twinOf(ctx, s, kind)
+		if err != nil {
+			return err
+		}
+		evs2 := tx.evs(c07Perm(r, 3))
+		if err := e.addEvidence(ctx, id2, evs2); err != nil {
+			return err
+		}
+		class2, fx2 := e.attest(ctx, id2, evs2, kind)
+		stillFirst := e.load(ctx, id) != nil
+		r.Stat(fmt.Sprintf("observed:uv-twin:tx-built-for-the-first-message-attests-its-twin:%s:fx=%v:first-still-queued=%v", class2, fx2, stillFirst))
+		*caseKey = fmt.Sprintf("uv/twin-first/%s/%v/%v", class2, fx2, stillFirst)
+		e.cleanup(ctx, id2)
+		e.cleanup(ctx, id)
+		return nil
+	}
 
 	// 5. evidence: every validator reports on its own; they need not agree
 	var evs []c07Ev
@@ -1692,44 +1741,10 @@ func (e *c07Env) driveMessage(ctx sdk.Context, id uint64, kind string, caseKey *
 	if txWon && resubmit && (kind == "uv" || kind == "slc") {
 		// re-submission: a second message with the same content, evidence = the SAME transaction
 		// (same hash), serialized the same way or - where the transaction has several - another way
-		var id2 uint64
-		var err error
-		if kind == "uv" {
-			uv := s.msg.GetUpdateValset()
-			id2, err = e.fa.App().ConsensusKeeper.PutMessageInQueue(ctx, e.queue, &evmtypes.Message{
-				TurnstoneID: s.msg.TurnstoneID, ChainReferenceID: c07Chain, Assignee: s.msg.Assignee,
-				AssigneeRemoteAddress: s.msg.AssigneeRemoteAddress, AssignedAtBlockHeight: s.msg.AssignedAtBlockHeight,
-				Action: &evmtypes.Message_UpdateValset{UpdateValset: uv},
-			}, &consensus.PutOptions{RequireGasEstimation: true, RequireSignatures: true})
-		} else {
-			id2, err = e.newSLC(ctx)
-		}
+		id2, err := e.twinOf(ctx, s, kind)
 		if err != nil {
 			return err
 		}
-		if est := s.q.GetGasEstimate(); est != 0 {
-			if err := e.electEstimate(ctx, id2, est); err != nil {
-				return err
-			}
-		}
-		// same signers in the same order, so that an update-valset call data is byte-identical
-		var order []int
-		for _, sd := range s.q.GetSignData() {
-			for i, v := range e.fa.Vals {
-				if v.ValAddr().Equals(sd.ValAddress) {
-					order = append(order, i)
-				}
-			}
-		}
-		if err := e.sign(ctx, id2, order); err != nil {
-			return err
-		}
-		if pad := s.q.GetPublicAccessData(); pad != nil {
-			if err := e.publicAccess(ctx, id2, pad.ValsetID); err != nil {
-				return err
-			}
-		}
-		e.register(ctx, id2)
 		// what the quorum reported for the first message, now for the second one
 		enc2 := grp.enc
 		if tx.class == "blob" {
@@ -1776,6 +1791,51 @@ func (e *c07Env) driveMessage(ctx sdk.Context, id uint64, kind string, caseKey *
 	}
 	e.cleanup(ctx, id)
 	return nil
+}
+
+// twinOf queues a second message with the same content as the stored message s (same action, same
+// elected estimate, same signers in the same order, same public access data) and registers it with
+// the model; an update-valset's call data for the twin is then byte-identical to that of s.
+func (e *c07Env) twinOf(ctx sdk.Context, s *c07Stored, kind string) (uint64, error) {
+	var id2 uint64
+	var err error
+	if kind == "uv" {
+		uv := s.msg.GetUpdateValset()
+		id2, err = e.fa.App().ConsensusKeeper.PutMessageInQueue(ctx, e.queue, &evmtypes.Message{
+			TurnstoneID: s.msg.TurnstoneID, ChainReferenceID: c07Chain, Assignee: s.msg.Assignee,
+			AssigneeRemoteAddress: s.msg.AssigneeRemoteAddress, AssignedAtBlockHeight: s.msg.AssignedAtBlockHeight,
+			Action: &evmtypes.Message_UpdateValset{UpdateValset: uv},
+		}, &consensus.PutOptions{RequireGasEstimation: true, RequireSignatures: true})
+	} else {
+		id2, err = e.newSLC(ctx)
+	}
+	if err != nil {
+		return 0, err
+	}
+	if est := s.q.GetGasEstimate(); est != 0 {
+		if err := e.electEstimate(ctx, id2, est); err != nil {
+			return 0, err
+		}
+	}
+	// same signers in the same order, so that an update-valset call data is byte-identical
+	var order []int
+	for _, sd := range s.q.GetSignData() {
+		for i, v := range e.fa.Vals {
+			if v.ValAddr().Equals(sd.ValAddress) {
+				order = append(order, i)
+			}
+		}
+	}
+	if err := e.sign(ctx, id2, order); err != nil {
+		return 0, err
+	}
+	if pad := s.q.GetPublicAccessData(); pad != nil {
+		if err := e.publicAccess(ctx, id2, pad.ValsetID); err != nil {
+			return 0, err
+		}
+	}
+	e.register(ctx, id2)
+	return id2, nil
 }
 
 // cleanup removes a message that is still stored (rejected without commit) so that the next
